@@ -84,6 +84,7 @@ func contractMentions(c *FuncContract, p string) bool {
 type RunConfig struct {
 	Repo, Verif string
 	Prop        string
+	NoSupport   bool // vc --prop: only the tagged obligations
 	Tier        string
 	Timeout     int
 	FuncFilter  *regexp.Regexp
@@ -172,8 +173,19 @@ func run(cfg RunConfig, pkgPaths []string) (*RunOutput, error) {
 					out.BindErrs = append(out.BindErrs, fmt.Sprintf("binding failure: atcall %s in %s (%s) matches no call site", ac.Callee, n, ac.Where))
 				}
 			}
-			for _, o := range g.obls {
+			// every obligation is assumed once asserted, so an obligation counted for the property rests on all
+			// obligations generated before it in the same function: those are checked with it ("supporting")
+			lastTagged := -1
+			for i, o := range g.obls {
 				if hasProp(o.Props, cfg.Prop) {
+					lastTagged = i
+				}
+			}
+			for i, o := range g.obls {
+				if hasProp(o.Props, cfg.Prop) {
+					jobs = append(jobs, job{g, o})
+				} else if i < lastTagged && cfg.Prop != "" && !cfg.NoSupport {
+					o.Support = true
 					jobs = append(jobs, job{g, o})
 				}
 			}
